@@ -187,6 +187,13 @@ Definition mut_base (t : stmt) : option (name * option Z) :=
   | _ => None
   end.
 
+(* the store phase of a mutating construct: the base variable held `root`, and the only
+   change from state s to state s' is that its slot now holds `root'` *)
+Definition stored (vn : name) (vl : option Z) (s s' : st) (root root' : value) : Prop :=
+  lookup_env vl vn (env s) = Some root /\
+  assign_env vl vn root' (env s) = Some (env s') /\
+  fns s' = fns s.
+
 (* a history: statements executed one after the other in the same scope, each ending
    normally (any fuel) *)
 Inductive steps (P : plan) (eps : f64) : st -> list stmt -> st -> Prop :=
